@@ -15,10 +15,10 @@ EXTENDS RaptorOps, TLC, Json, IOUtils
 Batch  == JsonDeserialize(IOEnv.TRACE_FILE)
 Traces == Batch.traces
 
-VARIABLES tid, l, co, gp, held, nput, nback, mvis, tow, disp, rres,
+VARIABLES tid, l, co, gp, held, nput, nback, mvis, tow, disp, rres, truth,
           sreg, sfw, sloc, sfail, sarr, errs, fin
 
-vars == <<tid, l, co, gp, held, nput, nback, mvis, tow, disp, rres,
+vars == <<tid, l, co, gp, held, nput, nback, mvis, tow, disp, rres, truth,
           sreg, sfw, sloc, sfail, sarr, errs, fin>>
 
 T         == Traces[tid]
@@ -40,6 +40,7 @@ Init ==
   /\ held  = [u \in Uids |-> NoSlots]
   /\ nput  = [u \in Uids |-> 0] /\ nback = [u \in Uids |-> 0] /\ mvis = [u \in Uids |-> 0]
   /\ tow = {} /\ disp = {} /\ rres = [u \in Uids |-> {}]
+  /\ truth = [u \in Uids |-> "none"]
   /\ sreg = {} /\ sfw = [u \in Uids |-> 0] /\ sloc = {} /\ sfail = {} /\ sarr = {}
   /\ errs = {} /\ fin = FALSE
 
@@ -92,6 +93,7 @@ IsSched(e) == e.ev \in {"SArrive", "SReg", "SUnreg", "SFwd", "SLocal", "SFail", 
 (* ---- dispatcher contract -------------------------------------------------- *)
 CallErrs(e) ==
   LET k == e.kind m == e.mode IN
+  IF k = "die" THEN {} ELSE    \* the process is gone: nothing to ask of the dispatcher
        E(e.returned, "C20.OutcomeReturned")
   \cup (IF e.returned
         THEN E((e.ret = "0") <=> Succeeds(k), "C20.OutcomeRet")
@@ -112,6 +114,23 @@ CallErrs(e) ==
 \* rank's dispatcher returned, k = "call")
 RankRes(u) == {x \in rres[u] : x.k = "done"}
 
+\* worker family: what really happened to a request, from what was observed
+\* on its way: the call returned normally (callok) and it is the child's own
+\* result (n = 1) which the result thread got first -> ok; a made-up result, a
+\* failed call, a process which did not start -> failed
+NewTruth(e) ==
+  IF T.family # "worker" THEN truth
+  ELSE IF e.ev = "Call"
+  THEN [truth EXCEPT ![e.uid] = IF @ = "none" /\ e.returned /\ Succeeds(e.kind) THEN "callok" ELSE @]
+  ELSE IF e.ev = "Deliver"
+  THEN [truth EXCEPT ![e.uid] = IF @ \in {"none", "callok"}
+                                THEN (IF e.n = 1 /\ @ = "callok" THEN "ok" ELSE "failed") ELSE @]
+  ELSE IF e.ev = "Spawn"
+  THEN [truth EXCEPT ![e.uid] = IF e.ok THEN @ ELSE "failed"]
+  ELSE IF e.ev \in {"Local", "Inject"}
+  THEN [truth EXCEPT ![e.uid] = IF e.ec = "0" THEN "ok" ELSE "failed"]
+  ELSE truth
+
 WorkerStep(e) ==
   LET ok == MapSized(e)
       lo == IF ok THEN ToCo(e) ELSE co
@@ -120,6 +139,7 @@ WorkerStep(e) ==
       same == E(lo = co /\ lg = gp, "C20.MapChangedSilently")
   IN
   /\ co' = lo /\ gp' = lg
+  /\ truth' = NewTruth(e)
   /\ CASE e.ev = "MDispatch" ->
             LET us == SeqSet(e.uids) IN
             /\ mvis' = [u \in Uids |-> IF u \in us THEN mvis[u] + 1 ELSE mvis[u]]
@@ -143,7 +163,8 @@ WorkerStep(e) ==
        [] e.ev = "RankDone" ->
             /\ rres' = [rres EXCEPT ![e.uid] = @ \cup {[rank |-> e.rank, ec |-> e.ec, k |-> "done"]}]
             /\ errs' = errs \cup e0 \cup same
-                 \cup E(e.rank \in held[e.uid].cores, "C20.NoShare")
+                 \* (a copy which went out before the request was refused may still run)
+                 \cup E(e.rank \in held[e.uid].cores \/ nput[e.uid] >= 1, "C20.NoShare")
                  \cup E(\A x \in RankRes(e.uid) : x.rank # e.rank, "C20.ResultOnce")
                  \* the rank reports what its dispatcher returned
                  \cup E(\A x \in rres[e.uid] : (x.k = "call" /\ x.rank = e.rank) => x.ec = e.ec,
@@ -191,9 +212,11 @@ WorkerStep(e) ==
                  \cup E(nput[u] = 0, "C20.ResultOnce")
                  \cup E(held[u] = NoSlots, "C20.AllBack")
                  \cup (IF T.family = "mpi"
-                       THEN E(Cardinality(RankRes(u)) = Rq(u).c
-                              /\ ((e.ec = "0") <=> (\A x \in RankRes(u) : x.ec = "0")),
-                              "C20.OutcomeRanks")
+                       THEN IF e.ec = "none"       \* could not be run at all
+                            THEN E(e.exc, "C20.OutcomeExc")
+                            ELSE E(Cardinality(RankRes(u)) = Rq(u).c
+                                   /\ ((e.ec = "0") <=> (\A x \in RankRes(u) : x.ec = "0")),
+                                   "C20.OutcomeRanks")
                        ELSE {})
             /\ UNCHANGED <<held, nback, mvis, tow, disp, rres>>
        [] e.ev = "MResult" ->
@@ -204,9 +227,11 @@ WorkerStep(e) ==
                  \cup E(u \in disp, "C20.ResultOnce")
                  \cup E(e.target = TargetOf(e.ec), "C20.TargetFromExit")
                  \cup (IF T.family = "mpi"
-                       THEN E((e.target = "DONE") <=> (\A x \in RankRes(u) : x.ec = "0"),
-                              "C20.TargetFromExit")
-                       ELSE {})
+                       THEN E((e.target = "DONE") <=> (/\ Cardinality(RankRes(u)) = Rq(u).c
+                                                       /\ \A x \in RankRes(u) : x.ec = "0"),
+                              "C20.TargetTruth")
+                       ELSE E(truth[u] = "none" \/ ((e.target = "DONE") <=> (truth[u] = "ok")),
+                              "C20.TargetTruth"))
                  \cup E(e.state = "AGENT_STAGING_OUTPUT_PENDING", "C20.ResultNotForwarded")
             /\ UNCHANGED <<held, nput, mvis, tow, disp, rres>>
        [] e.ev = "Call" ->
@@ -215,7 +240,7 @@ WorkerStep(e) ==
                        THEN [rres EXCEPT ![e.uid] = @ \cup {[rank |-> e.rank, ec |-> e.ret, k |-> "call"]}]
                        ELSE rres
             /\ UNCHANGED <<held, nput, nback, mvis, tow, disp>>
-       [] e.ev \in {"Poll", "Spawn", "Fin", "QPut", "Deliver", "WatcherDied"} ->
+       [] e.ev \in {"Poll", "Spawn", "Fin", "QPut", "Deliver", "WatcherDied", "Inject", "SendFail"} ->
             /\ errs' = errs \cup e0 \cup same
             /\ UNCHANGED <<held, nput, nback, mvis, tow, disp, rres>>
        [] e.ev = "End" ->
@@ -235,10 +260,10 @@ Step ==
   /\ LET e == Ev[l] IN
      IF IsSched(e)
      THEN /\ SchedStep(e)
-          /\ UNCHANGED <<co, gp, held, nput, nback, mvis, tow, disp, rres>>
+          /\ UNCHANGED <<co, gp, held, nput, nback, mvis, tow, disp, rres, truth>>
      ELSE IF T.family = "chain"
      THEN /\ errs' = errs \cup (IF e.ev = "Call" THEN CallErrs(e) ELSE {"X.UnknownEvent"})
-          /\ UNCHANGED <<co, gp, held, nput, nback, mvis, tow, disp, rres, sreg, sfw, sloc, sfail, sarr>>
+          /\ UNCHANGED <<co, gp, held, nput, nback, mvis, tow, disp, rres, truth, sreg, sfw, sloc, sfail, sarr>>
      ELSE /\ WorkerStep(e)
           /\ UNCHANGED <<sreg, sfw, sloc, sfail, sarr>>
   /\ UNCHANGED tid
@@ -247,7 +272,7 @@ Finish ==
   /\ ~fin /\ l > Len(Ev)
   /\ fin' = TRUE
   /\ PrintT(<<"RESULT", T.tid, errs>>)
-  /\ UNCHANGED <<tid, l, co, gp, held, nput, nback, mvis, tow, disp, rres,
+  /\ UNCHANGED <<tid, l, co, gp, held, nput, nback, mvis, tow, disp, rres, truth,
                  sreg, sfw, sloc, sfail, sarr, errs>>
 
 Next == Step \/ Finish
